@@ -47,9 +47,9 @@ def harnesses(tier, seed):
                        "timeout": t})
     for op, fn, clause in (
             ("make_accessible_oom", "Memory::make_accessible under a may-fail allocator",
-             "if the call returns: wf', view preserved, range accessible, and a failing allocator was never consulted; no access through a null or freed block (Kani pointer checks)"),
+             "if the call returns: wf, view preserved, range accessible, and NO growth request was refused (the k-th request fails for a symbolic set of k: a refusal is never survived, not even by a retry); no access through a null or freed block (Kani pointer checks)"),
             ("write_oom", "Memory::{write, write_out_of_bounds} under a may-fail allocator",
-             "if the call returns: wf', cell written, failing allocator never consulted")):
+             "if the call returns: wf, cell written, no request was refused")):
         for w in (8, 64):
             hs.append({"name": "%su2_%s_u%d" % (MOD, op, w), "function": fn + " <u%d>" % w, "clause": clause,
                        "properties": ["C17"], "bounded_by": bound,
